@@ -28,8 +28,47 @@ def shape_cases(seed, tier):
             yield {"net": name, "bnet": bnet, "other": None, "h1": h, "h2": []}
 
 
+SAME_NODES_FIRST = [("two_switches", families.switches(2)), ("shortcut3", families.norm("A, A | C; B, A | B; C, !C"))]  # the instances that revealed the shape
+
+
+def same_nodes_cases(seed, tier):
+    """shape added after the seeded-change review: two diagrams of the SAME network with (often) the same node set and different edge sets - in one of
+    them a node is still a stub although all of its children exist already, because they were reached through another parent (diamond-shaped diagrams
+    of independent modules, shortcut edges); compared in both directions.  Partial side: root, then a subset of the nodes expanded one by one; size- /
+    level-limited searches (a size limit equal to the final size stops when every node exists and some are stubs); minimal-space, target and block
+    expansion; build().  Other side: the full diagram, or another partial one."""
+    subsets = [[1, 2], [3, 4], [1, 3], [2, 4], [1, 2, 3], [2, 3, 4], [1], [4], [1, 2, 3, 4, 5], [2, 3, 4, 5, 6], [1, 2, 5, 6], [1, 3, 5, 7], [2, 4, 6, 8], [1, 2, 3, 4, 6, 7]]
+    full = [["bfs", None, None, None]]
+
+    def partials(rng, names):
+        out = [[["succ", 0]] + [["succ", i] for i in s] for s in subsets]
+        out += [[["bfs", None, None, k]] for k in range(3, 14)] + [[["dfs", None, None, k]] for k in range(3, 14, 2)]
+        out += [[["bfs", None, 1, None]], [["bfs", None, 2, None]], [["min", None, None, False]], [["build"]], [["block", False, None, False, False]],
+                [["target", families.random_space(rng, names, 0.3), None]], [["succ", 0], ["dfs", 1, None, None]], [["succ", 0], ["dfs", -1, None, None]],
+                [["succ", 0], ["bfs", 2, None, None]], [["succ", 0], ["bfs", 1, None, None], ["bfs", 2, None, None]]]
+        return out
+
+    nets = SAME_NODES_FIRST + [("three_switches", families.switches(3))] + list(families.LIMIT_NETS.items()) + list(families.MULTIPATH.items()) + list(families.DEEP.items())
+    fixed = len(nets)
+    more = [x for pair in zip(families.limit_nets(seed, tier), families.multipath_nets(seed, tier), families.deep_nets(seed, tier)) for x in pair]
+    done = set()
+    for k, (name, bnet) in enumerate(nets + more):
+        names = families.variables(bnet)
+        if bnet in done or len(names) > 8:
+            continue
+        done.add(bnet)
+        rng = random.Random(f"{seed}-{name}-c20-same")
+        ps = partials(rng, names)
+        if k >= fixed:
+            ps = rng.sample(ps[: len(subsets)], 3) + rng.sample(ps[len(subsets):], 3)
+        for j, h in enumerate(ps):
+            other = full if (k < 2 or rng.random() < 0.7) else rng.choice(ps)
+            first, second = (h, other) if (j + k) % 2 == 0 else (other, h)
+            yield {"net": name, "bnet": bnet, "other": None, "h1": first, "h2": second, "summary": False}
+
+
 def cases(seed, tier):
-    yield from families.interleave((shape_cases(seed, tier), 1), (general_cases(seed, tier), 3))
+    yield from families.interleave((same_nodes_cases(seed, tier), 1), (shape_cases(seed, tier), 1), (general_cases(seed, tier), 3))
 
 
 def general_cases(seed, tier):
@@ -106,8 +145,13 @@ def check_compare(a, b, what):
         obs = x.is_subgraph(y)
         if obs != exp:
             out.append(fail("is_subgraph_wrong", "is_subgraph decides inclusion of the node and edge sets of two diagrams", f"{what} ({tag})", observed=obs, expected=exp))
-    if a.is_isomorphic(b) != (exp_ab and exp_ba):
-        out.append(fail("is_isomorphic_wrong", "is_isomorphic decides equality of the node and edge sets of two diagrams", what, observed=a.is_isomorphic(b), expected=exp_ab and exp_ba))
+    for x, y, tag in ((a, b, "first with second"), (b, a, "second with first")):
+        obs = x.is_isomorphic(y)
+        if obs != (exp_ab and exp_ba):
+            out.append(fail("is_isomorphic_wrong", "is_isomorphic decides equality of the node and edge sets of two diagrams", f"{what} ({tag}); nodes equal: {na == nb}, "
+                            f"edges only in the first: {len(ea - eb)}, only in the second: {len(eb - ea)}", observed=obs, expected=exp_ab and exp_ba))
+        if x is y:
+            break
     return out
 
 
@@ -178,7 +222,8 @@ def check_with_info(case):
         out += check_compare(make_sd(case["bnet"]), c, f"two fresh diagrams, other network {case['other']!r}")
         c, _ = run_history(c, case["h2"])
         out += check_compare(a, c, f"modified network {case['other']!r} after {case['h2']}")
-    out += check_summary(case["bnet"], net)
+    if case.get("summary", True):
+        out += check_summary(case["bnet"], net)
     return out, info
 
 
